@@ -227,12 +227,21 @@ func (machj *Machine_json) Dejsoner() *Machine {
 	result.Op = make([]Opcode, len(machj.Op))
 	for i, opname := range machj.Op {
 
-		EventuallyCreateInstruction(opname)
+		_, createErr := EventuallyCreateInstruction(opname)
 
 		for _, op := range Allopcodes {
 			if op.Op_get_name() == opname {
 				result.Op[i] = op
 			}
+		}
+
+		// An opcode that cannot be resolved must not be left as a silent nil entry
+		if result.Op[i] == nil {
+			reason := "unknown opcode name"
+			if createErr != nil {
+				reason = createErr.Error()
+			}
+			panic(Prerror{"cannot resolve opcode \"" + opname + "\" while loading a machine: " + reason})
 		}
 	}
 	result.Threaded = machj.Threaded
